@@ -103,6 +103,12 @@ func stressTypes() []ctype {
 			h.Clear()
 		},
 	}
+	// two SHARED heaps: cross merges with writers on both (lock-order problems need both instances shared)
+	heapT.methods = append(heapT.methods,
+		method{"MergeSibling", func(i any, r *SplitMix) { use(i.(*heap.Heap[int]).Merge(heapSibling(i)).Size()) }},
+		method{"SiblingMerge", func(i any, r *SplitMix) { use(heapSibling(i).Merge(i.(*heap.Heap[int])).Size()) }},
+		method{"PushSibling", func(i any, r *SplitMix) { heapSibling(i).Push(r.Intn(5)) }},
+	)
 	bstT := ctype{
 		name: "bstree.BsTree",
 		mk: func(k int) any {
@@ -277,13 +283,17 @@ func stressTypes() []ctype {
 			return c
 		},
 		methods: []method{
-			{"Set", func(i any, r *SplitMix) { i.(*cache.Cache[string, int]).Set(ck[r.Intn(3)], r.Intn(9), time.Duration(r.Intn(3)-1)) }},
+			{"Set", func(i any, r *SplitMix) {
+				i.(*cache.Cache[string, int]).Set(ck[r.Intn(3)], r.Intn(9), time.Duration(r.Intn(3)-1))
+			}},
 			{"SetDefault", func(i any, r *SplitMix) { i.(*cache.Cache[string, int]).SetDefault(ck[r.Intn(3)], r.Intn(9)) }},
 			{"Get", func(i any, r *SplitMix) {
 				it, _ := i.(*cache.Cache[string, int]).Get(ck[r.Intn(3)])
 				use(it.Val())
 			}},
-			{"Update", func(i any, r *SplitMix) { i.(*cache.Cache[string, int]).Update(ck[r.Intn(3)], r.Intn(9), cache.NoExpiration) }},
+			{"Update", func(i any, r *SplitMix) {
+				i.(*cache.Cache[string, int]).Update(ck[r.Intn(3)], r.Intn(9), cache.NoExpiration)
+			}},
 			{"Delete", func(i any, r *SplitMix) { i.(*cache.Cache[string, int]).Delete(ck[r.Intn(3)]) }},
 			{"DeleteExpired", func(i any, r *SplitMix) { i.(*cache.Cache[string, int]).DeleteExpired() }},
 			{"Flush", func(i any, r *SplitMix) { i.(*cache.Cache[string, int]).Flush() }},
@@ -313,6 +323,24 @@ func stressTypes() []ctype {
 
 // runScenario runs the given methods concurrently (one goroutine each, `calls` calls per goroutine)
 // on a fresh instance; returns "" or a failure description.
+var (
+	siblingMu sync.Mutex
+	siblings  = map[any]*heap.Heap[int]{}
+)
+
+// heapSibling returns the second shared heap that belongs to instance i (created on first use).
+func heapSibling(i any) *heap.Heap[int] {
+	siblingMu.Lock()
+	defer siblingMu.Unlock()
+	s, ok := siblings[i]
+	if !ok {
+		s = heap.NewHeap(func(a, b int) bool { return a < b })
+		s.Push(2, 4)
+		siblings[i] = s
+	}
+	return s
+}
+
 func runScenario(t ctype, ms []method, initial int, calls int, r *SplitMix) string {
 	inst := t.mk(initial)
 	var wg sync.WaitGroup
@@ -457,10 +485,32 @@ func stressMain(args []string) int {
 		fmt.Printf("METHODS %s %s\n", t.name, strings.Join(reg, ","))
 		for i := 0; i < len(t.methods); i++ {
 			for j := i; j < len(t.methods); j++ {
-				for _, initial := range []int{0, 1, 3, 6} {
+				inits := []int{0, 1, 3, 6}
+				for _, s := range extraSizes() { // thresholds a change introduced into the source
+					if s <= 20000 {
+						inits = append(inits, s+1)
+					}
+				}
+				for _, initial := range inits {
 					for rep := 0; rep < reps; rep++ {
 						emit(t, []method{t.methods[i], t.methods[j]}, initial, rep)
 					}
+				}
+			}
+		}
+		if t.name == "heap.Heap" {
+			// four parties on two shared heaps: cross merges and a writer on each
+			var four []method
+			for _, nm := range []string{"MergeSibling", "SiblingMerge", "Push", "PushSibling"} {
+				for _, m := range t.methods {
+					if m.name == nm {
+						four = append(four, m)
+					}
+				}
+			}
+			for _, initial := range []int{1, 6} {
+				for rep := 0; rep < 3*reps; rep++ {
+					emit(t, four, initial, rep)
 				}
 			}
 		}
